@@ -19,10 +19,12 @@
  *   raise sig                raise(sig) now        | inpoll sig : raise(sig) inside the next ppoll
  *   exit pid status          the virtual child `pid` terminates (no SIGCHLD by itself)
  *   tick | tickhang          tickit_tick(NOHANG|NOSETUP) | tickit_tick(NOSETUP)
+ *   run                      tickit_run: iterations until a callback calls tickit_stop (action K); the harness's
+ *                            ppoll stops the loop itself (`hstop`) when it would block for ever or after 50 waits
  *   destroy                  tickit_unref
  *   end                      leak check
  * Actions: T,k,ms,flags  A,k,sec,usec,flags  L,k,flags  I,k,fd,cond,flags  S,k,sig,flags
- *          P,k,pid,flags  C,k  E,errno  R,sig  X,pid,status
+ *          P,k,pid,flags  C,k  E,errno  R,sig  X,pid,status  K (tickit_stop)
  *
  * Observation: the events of the operation in order, then ` ; b=<blocked> h=<handled> p=<pending>`
  * (signals of interest blocked / with a handler installed / pending in the kernel).
@@ -79,6 +81,9 @@ static struct { int k, n, nact; char *act[MAXACT]; } B[MAXBEH];
 static int nbeh;
 
 static long long vclock_us;
+static int quiet;            /* terminal set-up at `new`: nothing is logged, the clock jumps so that waits end */
+static int in_run, run_polls;
+#define MAX_RUN_POLLS 50
 static int ready_bits[NFD];
 static int inpoll[8], ninpoll;
 static struct { int exited, reaped, status; } PR[NPID];
@@ -88,6 +93,13 @@ static struct { int exited, reaped, status; } PR[NPID];
 int __wrap_gettimeofday(struct timeval *tv, void *tz)
 {
   (void)tz;
+  if(quiet) {
+    static long long setup_clock;
+    setup_clock += 1000000;
+    tv->tv_sec = 1 + setup_clock / 1000000;
+    tv->tv_usec = 0;
+    return 0;
+  }
   tv->tv_sec = vclock_us / 1000000;
   tv->tv_usec = vclock_us % 1000000;
   EV("g ");
@@ -97,6 +109,10 @@ int __wrap_gettimeofday(struct timeval *tv, void *tz)
 int __real_ppoll(struct pollfd *fds, nfds_t nfds, const struct timespec *to, const sigset_t *mask);
 int __wrap_ppoll(struct pollfd *fds, nfds_t nfds, const struct timespec *to, const sigset_t *mask)
 {
+  if(quiet) {
+    for(nfds_t i = 0; i < nfds; i++) fds[i].revents = 0;
+    return 0;
+  }
   obs("poll:");
   if(to) obs("%lld", (long long)to->tv_sec * 1000 + to->tv_nsec / 1000000);
   else   obs("inf");
@@ -114,21 +130,25 @@ int __wrap_ppoll(struct pollfd *fds, nfds_t nfds, const struct timespec *to, con
   for(int i = 0; i < ninpoll; i++)
     raise(inpoll[i]);           /* blocked by the loop: stays pending until the kernel looks */
   ninpoll = 0;
+  int force = in_run && ++run_polls >= MAX_RUN_POLLS;
   if(count > 0) {
     /* the kernel reports ready descriptors before it looks at signals */
     EV(":%d ", count);
+    if(force) { tickit_stop(T); EV("hstop "); }
     return count;
   }
   struct timespec zero = { 0, 0 };
   int r = __real_ppoll(NULL, 0, &zero, mask);
   if(r < 0 && errno == EINTR) {
     EV(":eintr ");
+    if(force) { tickit_stop(T); EV("hstop "); }
     errno = EINTR;
     return -1;
   }
   if(to)
     vclock_us += (long long)to->tv_sec * 1000000 + to->tv_nsec / 1000;
   EV(":0 ");
+  if(force || (in_run && !to)) { tickit_stop(T); EV("hstop "); }
   return 0;
 }
 
@@ -203,6 +223,7 @@ static int do_action(const char *act)
     case 'C': if(n == 1) do_cancel(v[0]); break;
     case 'E': if(n == 1) { errno = (int)v[0]; return 1; } break;
     case 'R': if(n == 1 && valid_sig(v[0])) raise((int)v[0]); break;
+    case 'K': if(n == 0) tickit_stop(T); break;
     case 'X': if(n == 2 && v[0] >= PID0 && v[0] < PID0 + NPID) { if(!PR[v[0] - PID0].exited) { PR[v[0] - PID0].exited = 1; PR[v[0] - PID0].status = (int)v[1]; } } break;
   }
   return 0;
@@ -275,7 +296,7 @@ static void sig_trailer(void)
 
 static void engine_begin(void)
 {
-  T = NULL; dead = 0; leaked = 0; nbeh = 0; ninpoll = 0;
+  T = NULL; dead = 0; leaked = 0; nbeh = 0; ninpoll = 0; quiet = 0; in_run = 0; run_polls = 0;
   memset(W, 0, sizeof W);
   memset(PR, 0, sizeof PR);
   memset(ready_bits, 0, sizeof ready_bits);
@@ -306,6 +327,10 @@ static void engine_op(int argc, char **argv)
       .term_builder = { .termtype = "xterm", .output_func = outfn },
     });
     if(!T) { obs("build-failed"); return; }
+    /* set the terminal up now (tickit_run would do it on first use), silently: one iteration with nothing to do */
+    quiet = 1;
+    tickit_tick(T, TICKIT_RUN_NOHANG);
+    quiet = 0;
     obs("ok ");
     sig_trailer();
     return;
@@ -352,6 +377,7 @@ static void engine_op(int argc, char **argv)
   }
   else if(strcmp(op, "tick") == 0 && argc == 1)     { tickit_tick(T, TICKIT_RUN_NOHANG | TICKIT_RUN_NOSETUP); obs("ok "); }
   else if(strcmp(op, "tickhang") == 0 && argc == 1) { tickit_tick(T, TICKIT_RUN_NOSETUP); obs("ok "); }
+  else if(strcmp(op, "run") == 0 && argc == 1) { in_run = 1; run_polls = 0; tickit_run(T); in_run = 0; obs("ok "); }
   else if(strcmp(op, "destroy") == 0 && argc == 1)  { tickit_unref(T); T = NULL; dead = 1; obs("ok "); }
   else { obs("bad-op"); return; }
   sig_trailer();
